@@ -163,6 +163,15 @@ class Package:
                     if usable(callee):
                         return callee, None
                 return None
+            # dispatch through a class-level table of the class's own functions (`self.T.get(key)(self, value)`) is the chain of
+            # method calls it abbreviates: the helpers can then be put back
+            try:
+                from .normalize import function_table_dispatch
+                for c in self.mro(cls):
+                    if c in self.classes:
+                        fn = function_table_dispatch(fn, self.classes[c].node)
+            except RecursionError:
+                pass
             fn = expand_helpers(fn, resolve)
             # a helper that loops over a table it is HANDED (`self._register_all(self._ROWS)`) is a static loop once it is back in
             # place: unroll again, with the module-level and class-level tables of the class (MRO) in view
